@@ -467,7 +467,8 @@ mod exec {
                     _ => false,
                 }
             }
-            if !s.chars().all(nice_char) {
+            // an empty string must be quoted, or it disappears from the command line
+            if s.is_empty() || !s.chars().all(nice_char) {
                 Cow::Owned(format!("'{}'", s.replace("'", r#"'\''"#)))
             } else {
                 Cow::Borrowed(s)
